@@ -45,7 +45,7 @@ RULE = (
 )
 BUDGET = {
     "quick": {"cases": 320, "shrink": False, "time_cap_s": 600},
-    "thorough": {"cases": 4000, "shrink": False, "time_cap_s": 3000},
+    "thorough": {"cases": 3000, "shrink": False, "time_cap_s": 3000},
 }
 K_WINDOW = 10.0
 K_ETA = 10.0
@@ -102,7 +102,7 @@ def st_shape(draw, nf, has_particles):
         widths = [round(w0, 3), round(w1, 3)]
         offs = [0.0, round(draw(st.floats(-2.0, 2.0)), 3)]
     deltas = None
-    if has_particles and draw(st.booleans()):
+    if has_particles and draw(st.sampled_from([True, False, True])):
         deltas = {}
         for key in ("D00", "D02", "D20", "D11"):
             deltas[key] = [[round(draw(st.floats(-1.0, 1.0)), 3) for _ in range(3)] for _ in range(has_particles)]
@@ -111,7 +111,7 @@ def st_shape(draw, nf, has_particles):
 
 @st.composite
 def st_particles(draw, nf):
-    n = draw(st.sampled_from([0, 0, 1, 1, 2]))
+    n = draw(st.sampled_from([1, 0, 2, 1, 0, 2]))
     out = []
     for k in range(n):
         out.append({"name": f"p{k}", "y": round(draw(st.floats(0.3, 1.0)), 3),
